@@ -9,6 +9,7 @@ package vsched
 
 import (
 	"fmt"
+	"io"
 	"runtime/debug"
 	"sort"
 	"strings"
@@ -736,4 +737,18 @@ func sortStrings(keys []string) []int {
 func Lib[T any](x T, name string) T {
 	LibCall(name, any(x))
 	return x
+}
+
+// Backuper is the part of *badger.DB used by StubBackup.
+type Backuper interface {
+	Backup(w io.Writer, since uint64) (uint64, error)
+}
+
+// StubBackup skips the (side-output only, 50 ms) store backup in controlled mode and delegates otherwise.
+func StubBackup(db Backuper, w io.Writer, since uint64) (uint64, error) {
+	if cur() == nil {
+		return db.Backup(w, since)
+	}
+	LibCall("badger.Backup(stub)", db)
+	return since, nil
 }
